@@ -14,6 +14,7 @@ mod explore;
 mod guts;
 mod report;
 mod simd;
+mod srcheck;
 mod tf;
 
 use report::Report;
